@@ -212,7 +212,7 @@ func stateFor(w *world, ctx sdk.Context, gc genContent) string {
 	}
 	s := aggState(w, ctx)
 	for _, t := range gc.Tags {
-		if strings.HasSuffix(t, "=registeredERC20") || strings.HasSuffix(t, "=coinERC20") || t == "meta.base=registered" || t == "toggle.denom=registeredCoin" || t == "toggle.denom=registeredAggregate" {
+		if strings.HasSuffix(t, "=registeredERC20") || strings.HasSuffix(t, "=coinERC20") || t == "~meta.base=registered" || t == "~toggle.denom=registeredCoin" || t == "~toggle.denom=registeredAggregate" {
 			return s + ",pairPresent"
 		}
 	}
@@ -301,7 +301,7 @@ func execStep(t *rapid.T, r *rec.Recorder, w *world, snapshots []sdk.Context, gc
 	shape := fmt.Sprintf("%s|%s|%s|%v|%s|%s", gc.Kind, gc.ClientKind, gc.ConsKind, gc.Tags, log.State, cls)
 	*history = append(*history, log)
 	idx := len(*history) - 1
-	r.Case(shape, len(gc.Tags) > 0, func() interface{} {
+	r.Case(shape, boundaryCount(gc.Tags) > 0, func() interface{} {
 		l := (*history)[idx]
 		l.Content = renderContent(w, content)
 		return l
